@@ -417,6 +417,23 @@ def c15(rep, tier):
         exists = guarded(g, ev, lambda c: is_call(c, '::contains') and show(c) == 'files.contains(%s)' % key, True)
         inloop = loops and any(x is ev.e for x in walk_all_exprs(loops[0]['body']))
         notactive = guarded(g, ev, lambda c: is_call(c, 'exists_scanner') and show(c) == 'exists_scanner(lex_stack, %s)' % key, False)
+        # the variable holding the key must not be redefined between the tests and the push
+        kv = strip_conv(crt[0]['args'][1])
+        stale = []
+        if kv.get('k') == 'ref' and kv.get('dk') == 'var':
+            for kind, rhs, node in M.defs(scan).get(kv['d'], []):
+                if kind == 'init':
+                    continue
+                dev = g.ev(node) if node.get('sid') in g.by_sid else None
+                if dev is None:
+                    continue
+                for cond, label, cn in g.guards_of(ev):
+                    if ('contains(%s)' % key in show(cond) or 'exists_scanner(lex_stack, %s)' % key in show(cond)) and cn.id in g.dom[dev.node.id]:
+                        stale.append((show(cond), show(node)))
+        if stale:
+            I4.violation('scan: push %s' % key, 'the key is modified (%s) after it was tested (%s): the tests looked at a different name than the one that is scanned' % (stale[0][1][:60], stale[0][0][:60]),
+                         W % ev.e['loc'][0])
+            continue
         I4.check(exists and (notactive or not inloop), 'scan: push %s' % key, 'dominated by files.contains(%s)%s' % (key, ' and !exists_scanner(lex_stack, %s)' % key if inloop else ' (initial push, empty stack)'),
                  'a scanner is pushed without %s' % ('existence test' if not exists else 'recursion test'), W % ev.e['loc'][0])
     es = sfacts.fn('exists_scanner')
